@@ -288,6 +288,8 @@ def main(tier):
                         "names state units (R4 seeds)"]
     from ..rules import siblings
     siblings.check_offset_rounding(run, fx)
+    from ..rules import extra as _x
+    _x.check_from_epoch_nanos(run, fx)
     siblings.check_offset_minutes_by_value(run, fx)
     siblings.check_day_carry(run, fx)
     siblings.check_offset_sign(run, fx)
